@@ -428,3 +428,271 @@ def summarize_groups(ctx, res, what):
                     '(sha1 of records+methods) with a class having >= 2 direct bases or a method with >= 2 definitions' % what,
             'samples': samples, 'input_distribution': res['dist'], 'groups_failing_property': nfail, 'groups_with_model_impl_difference': ndiff,
             'suite_wall_s': round(res.get('wall', 0), 1)}
+
+
+# --------------------------------------------------------------------------- C08: presentations of one inheritance graph
+
+def accepts_relation(impl):
+    """from the implementation's dump: set of (b, d) such that class d is covariant with class b"""
+    acc = set()
+    for k, v in impl.items():
+        if k.startswith('class '):
+            b = int(k.split()[1])
+            m = re.search(r' cov((?: \d+)*)$', v)
+            for d in (m.group(1).split() if m else []):
+                acc.add((b, int(d)))
+    return acc
+
+
+def present_suite(tier, seed):
+    """C08: each DAG registered under several presentations; observations compared across presentations,
+    the acceptance relation compared with the graph itself, and no (method, parameter) pairs share a cell"""
+    def compute():
+        t0 = time.time()
+        binp, blog = corelib.h1_binary(); mdl, mlog = corelib.model_binary()
+        res = {'build': {'h1': bool(binp), 'model': bool(mdl), 'h1_log': '' if binp else blog[-1500:], 'model_log': '' if mdl else mlog[-1500:]},
+               'cases': [], 'dist': {}, 'n': 0}
+        if not binp or not mdl:
+            return res
+        rng = vlib.Rng(seed * 104729 + 8)
+        n = 120 if tier == 'quick' else 1200
+        styles = ['full_sorted', 'full', 'direct', 'direct', 'superset', 'split', 'mixed', 'mixed']
+        groups = []
+        def variants_of(reg0, k):
+            nn = reg0['n']; parents = {int(a): b for a, b in reg0['parents'].items()}
+            vs = []
+            for st in (styles if k >= len(styles) else styles[:k]):
+                recs0 = present(rng, nn, parents, st)
+                r2 = dict(reg0); r2['records'] = [[c, 1 if c in reg0['abstract'] else 0, l] for c, l in recs0]; r2['style'] = st
+                vs.append(r2)
+            return vs
+        for c in load_corpus('core'):
+            if 'reg' in c and 'C08' in c.get('properties', []):
+                groups.append((c['name'], [c['reg']] + variants_of(c['reg'], 8)))
+        for i in range(n):
+            reg0 = gen_registry(rng, shapes=FULL_SHAPES, style='full_sorted', max_classes=9, max_methods=3,
+                                kind=rng.choice(['diamond', 'comb', 'mi_above_si', 'si_above_mi', 'random', 'random', 'tree', 'forest']))
+            groups.append(('g%d' % i, variants_of(reg0, 6 if tier == 'quick' else 8)))
+        pols = ['vec', 'chk', 'vec', 'hash']
+        pol_of = lambda name, vi: pols[int(name[1:]) % len(pols)] if re.match(r'^g\d+$', name) else 'vec'
+        impl, model = _run_variants(binp, mdl, groups, pol_of)
+        for name, variants in groups:
+            reg0 = variants[0]
+            nn = reg0['n']; parents = {int(a): b for a, b in reg0['parents'].items()}
+            anc = ancestors(parents, nn)
+            want_acc = set((b, d) for d in range(1, nn + 1) for b in anc[d])
+            views = []; fails = []; ndiff = 0; fv = None
+            for vi, reg in enumerate(variants):
+                key = '%s.%d' % (name, vi)
+                ir = impl.get(key, {'lines': [], 'crashed': True, 'stderr': 'no output'})
+                if ir['crashed']:
+                    fails.append('presentation %d (%s): the library crashed: %s' % (vi, reg.get('style'), ir['stderr'][-300:])); fv = fv or reg; continue
+                p = pol_of(name, vi)
+                iobs = parse_obs(split_by_policy(ir['lines']).get(p, []))
+                ev = evaluate(reg, p, iobs, parse_obs(model.get(key, [])))
+                ndiff += 1 if ev['ndiffs'] else 0
+                if iobs.get('update') != 'ok':
+                    fails.append('presentation %d (%s): update reports %s' % (vi, reg.get('style'), iobs.get('update'))); fv = fv or reg; continue
+                acc = accepts_relation(iobs)
+                if acc != want_acc:
+                    d = sorted(acc ^ want_acc)[0]
+                    fails.append('presentation %d (%s): class %d is %s where class %d is expected, but in the graph it %s a base of it'
+                                 % (vi, reg.get('style'), d[1], 'accepted' if d in acc else 'rejected', d[0], 'is' if d in want_acc else 'is not')); fv = fv or reg
+                for msg in ev['fail'].get('C04', [])[:1]:
+                    fails.append('presentation %d (%s): %s' % (vi, reg.get('style'), msg)); fv = fv or reg
+                views.append((vi, user_view(reg, iobs)))
+            if views:
+                v0i, v0 = views[0]
+                for vi, v in views[1:]:
+                    for k in sorted(set(v0) | set(v)):
+                        if v0.get(k) != v.get(k):
+                            fails.append('presentation %d (%s) vs presentation %d (%s): %s is %s vs %s'
+                                         % (v0i, variants[v0i].get('style'), vi, variants[vi].get('style'), k, v0.get(k), v.get(k)))
+                            fv = fv or variants[vi]
+                            break
+            res['cases'].append({'name': name, 'reg': reg0, 'orders': len(variants), 'hash': reg_hash(reg0), 'nontrivial': is_nontrivial(reg0),
+                                 'fails': fails[:5], 'ndiffs': ndiff, 'failing_variant': fv})
+            res['dist'][reg0.get('kind', 'corpus')] = res['dist'].get(reg0.get('kind', 'corpus'), 0) + 1
+        res['n'] = sum(len(v) for _, v in groups)
+        res['wall'] = time.time() - t0
+        return res
+    return cached('present', tier, seed, compute)
+
+
+# --------------------------------------------------------------------------- C07: load / unload histories
+
+class Hist:
+    """a registration history on one policy: mirrors the driver's bookkeeping (creation indexes, live flags)"""
+    def __init__(self, pol, reg):
+        self.pol = pol; self.lines = []; self.recs = []; self.meths = []; self.alias = reg.get('alias', {})
+        self.n = reg['n']; self.parents = {int(a): list(b) for a, b in reg['parents'].items()}
+        self.shapes = list(shapes_of(pol))
+        for c, a, bases in reg['records']:
+            self.add_class(c, a, bases)
+        for m in reg['methods']:
+            mi = self.add_method(m['shape'], m['vp'])
+            for d in m['defs']:
+                self.add_def(mi, d['next'], d['vp'])
+
+    def emit(self, s): self.lines.append('@%s %s' % (self.pol, s))
+    def add_class(self, c, a, bases):
+        self.recs.append({'c': c, 'a': a, 'bases': list(bases), 'live': True}); self.emit('class %d %d %s' % (c, a, ' '.join(map(str, bases))))
+    def add_method(self, shape, vp):
+        self.meths.append({'shape': shape, 'vp': list(vp), 'live': True, 'defs': []}); self.emit('method %s %s' % (shape, ' '.join(map(str, vp))))
+        return len(self.meths) - 1
+    def add_def(self, mi, nx, vp):
+        self.meths[mi]['defs'].append({'vp': list(vp), 'next': nx, 'live': True}); self.emit('def %d %d %s' % (mi, nx, ' '.join(map(str, vp))))
+    def del_def(self, mi, di):
+        self.meths[mi]['defs'][di]['live'] = False; self.emit('del def %d %d' % (mi, di))
+    def del_method(self, mi):
+        m = self.meths[mi]; m['live'] = False
+        for d in m['defs']: d['live'] = False
+        self.emit('del method %d' % mi)
+    def del_class(self, ri):
+        self.recs[ri]['live'] = False; self.emit('del class %d' % ri)
+    def live_registry(self):
+        return {'n': self.n, 'parents': {str(k): v for k, v in self.parents.items()}, 'abstract': [],
+                'records': [[r['c'], r['a'], r['bases']] for r in self.recs if r['live']],
+                'methods': [{'shape': m['shape'], 'vp': m['vp'], 'defs': [{'vp': d['vp'], 'next': d['next']} for d in m['defs'] if d['live']]}
+                            for m in self.meths if m['live']],
+                'alias': self.alias}
+    def used_classes(self):
+        u = set()
+        for m in self.meths:
+            if m['live']:
+                u.update(m['vp'])
+                for d in m['defs']:
+                    if d['live']: u.update(d['vp'])
+        for r in self.recs:
+            if r['live']: u.update(b for b in r['bases'] if b != r['c'])
+        return u
+
+    def mutate(self, rng):
+        """one legal modification of the live catalogs (the registry stays well formed)"""
+        anc = ancestors(self.parents, self.n)
+        desc = {c: sorted(d for d in range(1, self.n + 1) if c in anc[d] and any(r['live'] and r['c'] == d for r in self.recs)) for c in range(1, self.n + 1)}
+        live_m = [i for i, m in enumerate(self.meths) if m['live']]
+        choice = rng.below(10)
+        if choice < 3 and live_m:           # remove a definition (first / middle / last / only)
+            mi = rng.choice(live_m); ld = [j for j, d in enumerate(self.meths[mi]['defs']) if d['live']]
+            if ld:
+                self.del_def(mi, rng.choice([ld[0], ld[-1], rng.choice(ld)])); return 'del_def'
+        if choice < 6 and live_m:           # add a definition
+            mi = rng.choice(live_m); m = self.meths[mi]
+            if all(desc[c] for c in m['vp']) and len(m['defs']) < 10:
+                self.add_def(mi, 1 if rng.chance(3, 4) else 0, [rng.choice(desc[c]) for c in m['vp']]); return 'add_def'
+        if choice == 6 and len(live_m) > 1:  # unload a method with its definitions
+            self.del_method(rng.choice(live_m)); return 'del_method'
+        if choice == 7:                      # load a method
+            used_shapes = [self.meths[i]['shape'] for i in live_m]
+            avail = list(self.shapes)
+            for s in used_shapes:
+                if s in avail: avail.remove(s)
+            live_c = sorted(set(r['c'] for r in self.recs if r['live']))
+            if avail and live_c:
+                shape = rng.choice(avail); vp = [rng.choice(live_c) for _ in range(shape.count('v'))]
+                mi = self.add_method(shape, vp)
+                for _ in range(rng.range(0, 3)):
+                    if all(desc[c] for c in vp): self.add_def(mi, 1, [rng.choice(desc[c]) for c in vp])
+                return 'add_method'
+        if choice == 8:                      # unload a class nothing refers to, or one of several records of a class
+            used = self.used_classes()
+            cands = []
+            for ri, r in enumerate(self.recs):
+                if not r['live']: continue
+                others = [q for qi, q in enumerate(self.recs) if q['live'] and qi != ri and q['c'] == r['c']]
+                if r['c'] not in used and not others: cands.append(ri)
+            if cands:
+                self.del_class(rng.choice(cands)); return 'del_class'
+        # load a class: a new leaf deriving from live classes, or a removed class again
+        dead = [r for r in self.recs if not r['live'] and not any(q['live'] and q['c'] == r['c'] for q in self.recs)]
+        live_c = sorted(set(r['c'] for r in self.recs if r['live']))
+        if dead and rng.chance(1, 2):
+            r = rng.choice(dead)
+            if all(b == r['c'] or b in live_c for b in r['bases']):
+                self.add_class(r['c'], r['a'], r['bases']); return 're_add_class'
+        if self.n < 14 and live_c:
+            self.n += 1; c = self.n
+            bs = sorted(set(rng.sample(live_c, min(len(live_c), rng.choice([1, 1, 2])))))
+            self.parents[c] = bs
+            full = sorted(set(x for b in bs for x in ancestors(self.parents, self.n)[b]))
+            self.add_class(c, 0, rng.choice([bs, full, [c] + full])); return 'add_class'
+        return 'none'
+
+
+def history_suite(tier, seed):
+    def compute():
+        t0 = time.time()
+        binp, blog = corelib.h1_binary(); mdl, mlog = corelib.model_binary()
+        res = {'build': {'h1': bool(binp), 'model': bool(mdl), 'h1_log': '' if binp else blog[-1500:], 'model_log': '' if mdl else mlog[-1500:]},
+               'cases': [], 'dist': {}, 'n': 0}
+        if not binp or not mdl:
+            return res
+        rng = vlib.Rng(seed * 15485863 + 7)
+        n = 90 if tier == 'quick' else 900
+        pols = ['vec', 'hash', 'chk', 'def', 'defvec', 'map', 'ind']
+        hists = []
+        for i in range(n):
+            pol = pols[i % len(pols)]
+            reg = gen_registry(rng, shapes=shapes_of(pol), max_classes=7, max_methods=3)
+            h = Hist(pol, reg); h.name = 'h%d' % i; h.updates = []; h.ops = {}
+            nrounds = rng.range(2, 6 if tier == 'quick' else 12)
+            h.emit('update'); h.updates.append(h.live_registry())
+            for _ in range(nrounds):
+                for _ in range(rng.range(1, 4)):
+                    k = h.mutate(rng); h.ops[k] = h.ops.get(k, 0) + 1
+                h.emit('update'); h.updates.append(h.live_registry())
+                if rng.chance(1, 3):
+                    h.emit('update'); h.updates.append(h.live_registry()); h.ops['update_again'] = h.ops.get('update_again', 0) + 1
+            hists.append(h)
+        text = ''.join('case %s\nids small\n%s\nend\n' % (h.name, '\n'.join(h.lines)) for h in hists)
+        impl = run_h1(binp, text, timeout=1200)
+        queries = [('%s.%d' % (h.name, k), query_text('%s.%d' % (h.name, k), r)) for h in hists for k, r in enumerate(h.updates)]
+        model = {}
+        for b0 in range(0, len(queries), 400):
+            model.update(run_model(mdl, queries[b0:b0 + 400], timeout=1200))
+        # the final catalogs again, in a fresh process
+        fresh_text = ''.join(case_text(h.name + '.fresh', h.updates[-1], [h.pol]) for h in hists)
+        fresh = run_h1(binp, fresh_text, timeout=1200)
+        for h in hists:
+            ir = impl.get(h.name, {'lines': [], 'crashed': True, 'stderr': 'no output'})
+            fails = []; ndiff = 0
+            chunks = split_updates(split_by_policy(ir['lines']).get(h.pol, []))
+            if ir['crashed']:
+                fails.append('the library crashed during the history (after %d updates): %s' % (len(chunks), ir['stderr'][-300:]))
+            last_view = None
+            for k, reg in enumerate(h.updates):
+                if k >= len(chunks): break
+                iobs = parse_obs(chunks[k])
+                ev = evaluate(reg, h.pol, iobs, parse_obs(model.get('%s.%d' % (h.name, k), [])))
+                ndiff += 1 if ev['ndiffs'] else 0
+                for prop in ('C01', 'C02', 'C03', 'C04'):
+                    for msg in ev['fail'].get(prop, [])[:1]:
+                        fails.append('after update %d of the history: %s' % (k, msg))
+                view = user_view(reg, iobs)
+                if k > 0 and h.updates[k - 1] == reg and last_view is not None and view != last_view:
+                    kk = [x for x in sorted(set(view) | set(last_view)) if view.get(x) != last_view.get(x)][0]
+                    fails.append('update %d repeated with no change alters %s: %s vs %s' % (k, kk, last_view.get(kk), view.get(kk)))
+                last_view = view
+            fr = fresh.get(h.name + '.fresh')
+            if fr and not fr['crashed'] and last_view is not None and len(chunks) >= len(h.updates):
+                fobs = parse_obs(split_by_policy(fr['lines']).get(h.pol, []))
+                fview = user_view(h.updates[-1], fobs)
+                # real calls exist only for methods that got a real method<> in the driver, which depends on the history
+                common = lambda a, b: {x: a[x] for x in a if not x.startswith(('call ', 'resolve ')) or x in b}
+                fview, lview = common(fview, last_view), common(last_view, fview)
+                if fview != lview:
+                    last_view = lview
+                    kk = [x for x in sorted(set(fview) | set(last_view)) if fview.get(x) != last_view.get(x)][0]
+                    fails.append('after the history %s is %s but a fresh process with the same registrations gives %s' % (kk, last_view.get(kk), fview.get(kk)))
+            reg0 = h.updates[0]
+            res['cases'].append({'name': h.name, 'reg': h.updates[-1], 'orders': len(h.updates), 'hash': hashlib.sha1('\n'.join(h.lines).encode()).hexdigest(),
+                                 'nontrivial': any(k.startswith('del') for k in h.ops), 'fails': fails[:5], 'ndiffs': ndiff, 'failing_variant': None,
+                                 'history': h.lines if fails else None, 'policy': h.pol})
+            for k, v in h.ops.items():
+                res['dist'][k] = res['dist'].get(k, 0) + v
+            res['dist']['policy ' + h.pol] = res['dist'].get('policy ' + h.pol, 0) + 1
+        res['n'] = sum(len(h.updates) for h in hists)
+        res['wall'] = time.time() - t0
+        return res
+    return cached('history', tier, seed, compute)
